@@ -15,7 +15,7 @@ import ast
 from sa import sym, termdiff
 from sa.sym import show, num, num_value, atoms_of
 from sa.model import dotted, own_calls, own_nodes
-from . import parity
+from . import parity, common
 
 ST = "toasty.study"
 
@@ -572,6 +572,8 @@ def _r3_tile_image(run, ev):
     wr = [x for x in r.events if x.kind == "call" and x.term[1][0] == "attr" and x.term[1][2] == "write_image"]
     if len(wr) == 1 and wr[0].term[2] and wr[0].term[2][0] == pos and len(wr[0].term[2]) > 1 and wr[0].term[2][1] == a[0]:
         run.holds("C08.R3", f, wr[0].node, "each filled buffer is written at its tuple's own position")
+    elif len(wr) == 1 and wr[0].term[2] and common.unfollowed_project_calls(run.project, wr[0].term[2][0]):
+        run.undecided("C08.R3", f, wr[0].node, "tile_image writes at %s, a position produced by a helper that is not followed" % show(wr[0].term[2][0])[:60], kind="write-position-helper")
     else:
         run.violated("C08.R3", f, wr[0].node if wr else None, "tile_image does not write the filled buffer at the generated position", kind="write-position")
     # fill parameter order in image.py
